@@ -12,6 +12,7 @@ def ids(props, table):
         IDS[i] = (IDS.get(i, (set(), ''))[0] | set(props.split()), meaning)
 
 
+ids('C03', {100: 'pre-state', 201: 'len', 202: 'count', 203: 'multiplicity', 204: 'lookup', 205: 'is_empty', 206: 'capacity', 207: 'value', 208: 'identity', 302: 'ledger', 901: 'double drop', 903: 'dead compare', 904: 'dead yield', 905: 'dead borrow', 211: '', 212: '', 213: '', 214: '', 215: ''})
 ids('C01 C05 C07', {100: 'pre-state construction: insert of a fresh key returned Some'})
 ids('C01 C07 C05', {201: 'len() differs from the model', 202: 'iteration count differs from the model',
                     203: 'a key is yielded a wrong number of times', 204: 'lookup differs from the model',
@@ -50,6 +51,16 @@ ids('C08', {801: 'size_hint does not bracket the number of items still to come',
             806: 'count() differs from stepping', 807: 'is_subset', 808: 'is_superset', 809: 'is_disjoint', 810: 'operator - result'})
 ids('C08 C14', {811: 'operand modified'})
 ids('C14', {820: 'equality differs from extensional equality', 821: 'equality not symmetric', 822: 'equality not reflexive'})
+ids('C03', {711: 'adding an absent key to a full container did not panic', 712: 'not exactly one panic entry point was hit',
+            713: 'memory outside the container (canary) was overwritten', 714: 'rejected argument not destroyed', 715: 'destruction/creation count off after the rejection',
+            716: 'container not usable after the rejected insertion', 717: 'checked_insert on a full map did not return None', 718: 'value replacement on a full container failed',
+            719: 'From<[_;N]> panicked', 720: 'capacity() != N or len() > capacity()'})
+ids('C04', {731: 'container not usable after a panic in user code', 732: 'operation result inconsistent', 301: 'more destructions than creations',
+            302: 'ledger unbalanced after a run without panic', 901: 'double drop / drop of an uninitialised slot', 902: 'clone of dead data', 903: 'comparison of dead data',
+            904: 'iteration yields dead data', 905: 'borrow of dead data', 211: 'iteration count != len() after a panic', 212: 'duplicate key after a panic',
+            213: 'is_empty', 214: 'len() > capacity() after a panic', 215: 'yielded key does not look up', 612: 'map not empty after drain', 100: 'pre-state',
+            201: '', 202: '', 203: '', 204: '', 205: '', 206: '', 207: '', 208: ''})
+ids('C05', {733: 'container-raised panic expected/unexpected', 201: '', 202: '', 203: '', 204: '', 205: '', 206: '', 207: ''})
 ids('C06', {501: 'returned reference points outside the container value'})
 
 # engine-level result classes that count for every property whose harness shows them
@@ -93,8 +104,26 @@ fam('c08_sub', 'g_alg', Q8[:6], D8)
 fam('c08_difference_ref', 'g_alg', [(1, 1), (2, 2), (3, 2), (2, 3)], [(3, 3), (4, 2)], unwind=lambda c: 9)
 fam('c14_map c14_set', 'g_alg', Q8 + [(2, 3)], [(4, 4), (4, 1), (1, 4), (5, 5)])
 
+C03F = 'c03_insert c03_insert_kv c03_or_insert c03_or_insert_with c03_or_insert_with_key c03_vacant_insert c03_or_default c03_from_iter c03_set_insert c03_set_extend c03_checked_full c03_from_array'
+fam(C03F, 'g_full', [0, 1, 2, 3], [4, 5], profiles=('rel', 'dbg'))
+fam('c03_replace_full', 'g_full', [1, 2, 3], [4, 5], profiles=('rel', 'dbg'))
+
+C04F1 = 'c04_clone c04_clear c04_retain c04_insert c04_remove c04_set_ops c04_drops'
+fam('c04_insert c04_remove c04_set_ops', 'g_panic', [0, 1, 2, 3], [4, 5], dprofiles=('rel', 'dbg'))
+fam('c04_clone c04_clear c04_retain', 'g_panic', [1, 2, 3], [4, 5, 6], dprofiles=('rel', 'dbg'))   # N=0: no user callback is made
+fam('c04_drops', 'g_panic', [1, 2, 3], [4, 5], dprofiles=('rel', 'dbg'))
+fam('c04_lookup c04_entry c04_disjoint', 'g_panic', [1, 2, 3], [4, 5], dprofiles=('rel', 'dbg'))
+fam('c04_from_iter', 'g_panic', [(0, 2), (1, 2), (2, 3), (3, 4)], [(4, 5), (3, 5)])
+fam('c04_set_extend', 'g_panic', [(1, 2), (2, 3), (3, 3)], [(4, 4)])
+fam('c04_set_algebra', 'g_panic', [(1, 1), (2, 2), (3, 2)], [(3, 3), (4, 2)])
+fam('c05_panics', 'g_panic', [0, 1, 2, 3], [4, 5], profiles=('rel', 'dbg'))
+
 # --------------------------------------------------------------------------------------- properties
 PROPS = {
+    'C04': dict(fams=C04F1 + ' c04_lookup c04_entry c04_disjoint c04_from_iter c04_set_extend c04_set_algebra'),
+    'C05': dict(fams='c05_panics c01_insert c01_insert_kv c01_checked_insert c01_remove c01_remove_entry c01_retain c01_clear c01_drain_all c01_lookup c01_index '
+                     'c07_insert c07_replace c07_remove c07_take c07_retain c10_drain'),
+    'C03': dict(fams=C03F + ' c03_replace_full'),
     'C08': dict(fams='c08_union c08_intersection c08_difference c08_symdiff c08_union_fold c08_intersection_fold c08_difference_fold c08_symdiff_fold c08_sub c08_difference_ref c08_predicates'),
     'C14': dict(fams='c14_map c14_set'),
     'C07': dict(fams='c07_insert c07_replace c07_lookup c07_remove c07_take c07_retain c07_clear c07_drain c07_extend c07_extend_ref'),
